@@ -584,7 +584,7 @@ def run_cases(ctx, exe, cases, cnt, var, cov, dist, distinct, nested=False):
                     else:
                         dist["skip_after_error_confirmed"] = dist.get("skip_after_error_confirmed", 0) + 1
     for d in (sbase, jbase):
-        shutil.rmtree(d, ignore_errors=True)
+        pcp.rm_bg(d)
 
 
 class Probe:
